@@ -356,16 +356,18 @@ class RaisedException(object):
     exc.user_input = decode_object(exc.user_input.get("u", RaisedException.NO_INPUT))
     # The exception object itself was not stored. Formulas that read this cell re-raise .error and
     # report its class name, so stand in for it with an exception of the same name and text.
-    exc.error = _make_stand_in_error(exc._name, exc._message)
+    exc.error = _make_stand_in_error(exc._name, exc._message, exc.details)
     return exc
 
 _stand_in_error_classes = {}
 
-def _make_stand_in_error(name, message):
+def _make_stand_in_error(name, message, details):
   if not isinstance(name, str):
     return None
   if name == depend.CircularRefError.__name__:
     return depend.CircularRefError(message or "")
+  if name == InvalidTypedValue.__name__:
+    return InvalidTypedValue(message, details)    # (encoded as typename and value, see above)
   cls = _stand_in_error_classes.get(name)
   if cls is None:
     cls = _stand_in_error_classes[name] = type(name, (Exception,), {})
